@@ -356,8 +356,8 @@ class Kauri(ClusterMixin, BaseEstimator, ABC):
         # Check is fit had been called
         check_is_fitted(self)
 
-        # Input validation
-        X = check_array(X)
+        # Input validation: the thresholds were chosen on double-precision data, compare in double precision
+        X = check_array(X, dtype=np.float64)
 
         return self.tree_.predict(X)
 
